@@ -130,6 +130,7 @@ type Machine struct {
 	timers    []*chanV
 	ptrIDs    map[*value]int
 	inInit    int
+	randInts  []*Term
 	forkSites map[string]int
 	randDraws int
 	siteFn    string
@@ -687,6 +688,7 @@ func (m *Machine) resetPath() {
 	m.timers = nil
 	m.ptrIDs = map[*value]int{}
 	m.inInit = 0
+	m.randInts = nil
 	m.randDraws = 0
 	m.mapOrderNondet = false
 	m.opts = m.baseOpts
